@@ -198,6 +198,80 @@ theorem cyclic_report_closed (s : Sorter) (inv : s.Inv) (left : List Nat) (h : s
     exact (kahn_outcome inv.nodes_nodup s.arcs_in_nodes).2.2
   · cases h
 
+/-! ### long-lived sorters: the public `remove`, and `sorted()` asked at any point of a history -/
+
+/-- Every history of valid additions, removals (also of names that are not there) and `sorted()` calls, in any
+interleaving, keeps the bookkeeping invariant — so `sorted_ok_spec`, `unsatisfied_before_iff`,
+`unsatisfied_after_iff`, `cycle_iff_error`, `cyclic_report_closed` apply to the state reached at every point. -/
+theorem history_keeps_invariant (first last : Nat) (dB dA : Option (List Nat)) (hfl : first ≠ last)
+    (ops : List HOp) (hv : ∀ op ∈ ops, op.Valid (Sorter.empty first last dB dA)) :
+    (ops.foldl HOp.step (Sorter.empty first last dB dA)).Inv :=
+  history_inv ops _ (empty_inv first last dB dA hfl) hv
+
+/-- `sorted()` only reads: erasing the queries from a history gives the same state. -/
+theorem queries_do_not_change_state (s : Sorter) (ops : List HOp) :
+    ops.foldl HOp.step s = (ops.filter fun op => !op.isQuery).foldl HOp.step s := by
+  induction ops generalizing s with
+  | nil => rfl
+  | cons op ops ih =>
+    cases op with
+    | add o => simpa [HOp.isQuery] using ih _
+    | remove n => simpa [HOp.isQuery] using ih _
+    | query => simpa [HOp.isQuery, HOp.step] using ih s
+
+theorem runHistory_append (s : Sorter) (pre rest : List HOp) :
+    runHistory s (pre ++ rest) = runHistory s pre ++ runHistory (pre.foldl HOp.step s) rest := by
+  induction pre generalizing s with
+  | nil => rfl
+  | cons op pre ih =>
+    cases op with
+    | add o => simpa [runHistory] using ih _
+    | remove n => simpa [runHistory] using ih _
+    | query => simpa [runHistory, HOp.step] using ih s
+
+/-- **`sorted()` is a function of the declarations in force**: whatever was asked before, the answer to a
+`sorted()` call at any position of a history is `sorted` of the state produced by the additions and removals made
+so far (the earlier queries erased) — nothing an earlier `sorted()` computed can show in a later answer. -/
+theorem sorted_is_a_function_of_the_current_state (s : Sorter) (pre post : List HOp) :
+    let now := (pre.filter fun op => !op.isQuery).foldl HOp.step s
+    runHistory s (pre ++ HOp.query :: post) = runHistory s pre ++ now.sorted :: runHistory now post := by
+  simp only [runHistory_append, runHistory, ← queries_do_not_change_state]
+
+/-- The public `remove`: a present name disappears with everything it declared (so a later `sorted()` neither
+returns it nor lets it satisfy anybody's requirement: it is no longer a node); a name that is not there leaves
+the state untouched (the real call raises `ValueError`). -/
+theorem removed_name_is_gone (s : Sorter) (inv : s.Inv) (n : Nat) :
+    (n ∈ s.names →
+      let t := (HOp.remove n).step s
+      t.names = s.names.erase n ∧ n ∉ t.nodes ∧ alookup n t.n2after = none ∧ alookup n t.n2before = none ∧
+      ∀ r, t.sorted = .ok r → n ∉ r) ∧
+    (n ∉ s.names → s.removeOp n = (s, false)) := by
+  constructor
+  · intro hmem
+    have hc : s.names.contains n = true := by simpa using hmem
+    obtain ⟨tinv, h1, h2, h3⟩ := remove_inv s inv n hmem
+    obtain ⟨f1, f2, f3, _⟩ := remove_fields s n
+    have hnodes : n ∉ (s.remove n).nodes := by
+      have hn := inv.nodes_nodup
+      simp only [Sorter.nodes, List.nodup_cons, List.mem_cons, not_or] at hn
+      simp only [Sorter.nodes, f2, f3, List.mem_cons, not_or]
+      refine ⟨?_, ?_, h1⟩
+      · rintro rfl; exact hn.1.2 hmem
+      · rintro rfl; exact hn.2.1 hmem
+    simp only [HOp.step, Sorter.removeOp, hc, if_true]
+    refine ⟨f1, hnodes, alookup_none_of_not_mem h2, alookup_none_of_not_mem h3, ?_⟩
+    intro r hr hnr
+    exact h1 ((sorted_ok_spec _ tinv r hr).1.mem_iff.mp hnr)
+  · intro hmem
+    simp [Sorter.removeOp, hmem]
+
+/-- non-vacuity and the history the seeded `sorted()` cache gets wrong: `a before=b`, `b`, ask (fine), remove `b`,
+ask again — the second answer must be the unsatisfied-before error for `a`, not the remembered order -/
+example :
+    runHistory (Sorter.empty 0 1 (some [1]) none)
+      [.add ⟨2, none, some [3]⟩, .add ⟨3, none, none⟩, .query, .remove 3, .query, .remove 9, .query] =
+      [.ok [2, 3], .unsatBefore [2], .unsatBefore [2]] := by decide
+
 /-! ### wrapping order -/
 
 /-- **Tweens / derivers wrap in list order: the first is outermost** — entered first, left last —
